@@ -47,10 +47,17 @@ def build_kb(kbs):
             negs, disj = ops[:-1], ops[-1]
             operands = kbs[disj][1]
             f = XOr(*[objs[j] for j in operands])
-            for j, c in zip(aux, f.conjunctions):
-                objs[j] = c
-            for j, c in zip(negs, f.negations):
-                objs[j] = c
+            # map the private sub-objects by the operands they read (not by position), so that a
+            # change in which sub-formulae XOr creates shows up as a semantic difference, not a harness crash
+            used = set()
+            for j, ng in zip(aux, negs):
+                a, b = kbs[j][1]
+                for ci, c in enumerate(f.conjunctions):
+                    if ci not in used and len(c.operands) == 2 and c.operands[0] is objs[a] and c.operands[1] is objs[b]:
+                        used.add(ci)
+                        objs[j] = c
+                        objs[ng] = f.negations[ci]
+                        break
             objs[disj] = f.disjunction
             objs[i] = f
     return objs
@@ -59,6 +66,9 @@ def build_kb(kbs):
 def dump(objs):
     out = []
     for o in objs:
+        if o is None:  # a sub-object the implementation did not create
+            out.append([F(-1), F(-1)])
+            continue
         t = o.get_data().tolist()
         out.append([fr(t[0]), fr(t[1])])
     return out
@@ -98,6 +108,10 @@ def run_ops(model, objs, ops):
             res.append([dump(objs)])
         elif t == 7:
             model.reset_bounds()
+            res.append([dump(objs)])
+        elif t == 8:
+            b = op[2]
+            model.add_data({objs[op[1]]: (float(sx.q(b[0])), float(sx.q(b[1])))})
             res.append([dump(objs)])
         elif t == 9:
             res.append([bool(model.has_contradiction())])
